@@ -21,6 +21,7 @@ func init() {
 			"R2": "engine mutex must-held at every membership write / seat-manager assign-remove / hand single action (frozen exception: table creation)",
 			"R3": "seat manager: writes under the write lock; lock idiom in every taker",
 			"R4": "no re-entrant acquisition on the same instance along synchronous call edges",
+			"R6": "callbacks on the membership ready group reach elements of the live player list / seat map / hand index list only under the engine mutex",
 			"R5": "the hand's current state is replaced synchronously by the caller that produced it (sole writer: the update function, unconditional, called as a plain call), so engine-mutex-serialised actions validate against the state left by the previous accepted action",
 		},
 		Assumptions: []string{"the engine is not shared before CreateTable returns (creation exception)", "sync.Mutex / sync.RWMutex semantics"},
@@ -100,6 +101,80 @@ func checkC16(c *Ctx) {
 		c.Check(li.Held(s.in, EK), "R2", fnName(f)+":"+s.what, p.InstrPos(s.in), "engine mutex must-held", "the engine mutex is not held on every path/caller reaching this "+s.what+" (lockset "+li.At(s.in).String()+")")
 	}
 
+	// R6: what the engine registers on its membership ready group (the auto sit-in completion / timeout) runs on
+	// the group's own goroutine while reservations and departures go on: there, and in whatever it calls without
+	// the lock, an element of the live player list / seat map / hand index list is reached only under the engine
+	// mutex — ranging over the list and indexing it again (or indexing at all) races with PlayersLeave shrinking it,
+	// and the out-of-range index is a panic on a library goroutine
+	{
+		var roots []*ssa.Function
+		for _, f := range p.Methods(et) {
+			for _, ci := range Calls(f) {
+				n := calleeName(ci.Common())
+				if n != "syncsaga.ReadyGroup.OnCompleted" && n != "syncsaga.ReadyGroup.OnTimeout" {
+					continue
+				}
+				if !p.Sym(ci.Common().Args[0]).Strip().IsField("tableEngine", "rg") {
+					continue
+				}
+				roots = append(roots, closureOperands(ci.Common().Args[1])...)
+			}
+		}
+		c.Min("R6", "callbacks registered on the engine's membership ready group", len(roots), 2)
+		seen := map[*ssa.Function]bool{}
+		var order []*ssa.Function
+		var visit func(f *ssa.Function)
+		visit = func(f *ssa.Function) {
+			if f == nil || seen[f] || !inModule(p, f) || f.Blocks == nil {
+				return
+			}
+			seen[f] = true
+			order = append(order, f)
+			for _, ci := range Calls(f) {
+				visit(ci.Common().StaticCallee())
+				for _, cl := range closureOperands(ci.Common().Value) {
+					visit(cl)
+				}
+			}
+		}
+		for _, r := range roots {
+			visit(r)
+		}
+		nSites := 0
+		for _, f := range order {
+			bad := map[string]ssa.Instruction{}
+			for _, b := range f.Blocks {
+				for _, in := range b.Instrs {
+					var x ssa.Value
+					switch y := in.(type) {
+					case *ssa.IndexAddr:
+						x = y.X
+					case *ssa.Index:
+						x = y.X
+					default:
+						continue
+					}
+					fs := p.Sym(x).Strip()
+					if !(fs.IsField("TableState", "PlayerStates") || fs.IsField("TableState", "SeatMap") || fs.IsField("TableState", "GamePlayerIndexes")) {
+						continue
+					}
+					if !fs.Contains(func(y *Sym) bool { return y.IsField("tableEngine", "table") }) {
+						continue // a snapshot handed in, not the engine's live table
+					}
+					nSites++
+					if !li.Held(in, EK) && bad[fs.Name] == nil {
+						bad[fs.Name] = in
+					}
+				}
+			}
+			for fld, in := range bad {
+				c.Bad("R6", "async-element-access:"+FuncName(f)+":"+fld, p.InstrPos(in), "an element of the live "+fld+" is reached without the engine mutex on the membership ready group's goroutine (reached from its completion / timeout callback): a PlayersLeave running meanwhile shrinks the list under it — index out of range on a library goroutine")
+			}
+		}
+		if len(order) > 0 {
+			c.Ok("R6", "async-element-access", "-", fmt.Sprintf("%d function(s) reachable from the ready-group callbacks, %d element access(es) of the live lists, all under the engine mutex", len(order), nSites))
+		}
+	}
 	// R1: takers and idiom
 	takers := map[*ssa.Function]bool{}
 	for _, f := range p.Funcs {
